@@ -70,15 +70,17 @@ func init() {
 		Rule: "One case = one clear single-track CMAF input (same generator and pinned boundary cases as C07: AVC/HEVC with own parameter sets and slice headers, AAC/AC-3 audio, NAL size classes 5..15/16/17..91/92..130/131..999/~1k/~70k, non-VCL NAL > 65535, 1..4 fragments, uuid tfxd/tfrf/unknown, unknown 4cc, free, pssh boxes in moof/traf; the repo's real clear streams) x one configuration (cenc|cbcs, key random|zero|ff, IV 8|16 incl. counter wraps, optional pssh), " +
 			"encrypted by library protocol (InitProtect, EncryptFragment, Encode; reader|slice reader; combined|separate init; ExtractInitProtectData) or mp4ff-encrypt, then decrypted by library protocol (DecryptInit, DecryptSegment, Encode in segment or box-tree mode) or mp4ff-decrypt (combined or -init), independently chosen. " +
 			"Oracle on the decrypted *bytes*, read with ref/boxwalk + ref/cenc: samples (bytes via moof start + data_offset, size, duration, flags, cto, decode time) = generator ground truth; sample entry type restored and no sinf left; every non-protection box of the same-mode re-encode of the clear input present, in order, byte-identical (trun data_offset masked and checked through the sample bytes; container size fields excluded; top-level sidx excluded). " +
-			"Case list: the 88 pinned cases of C07, 5400 (quick) / 250000 (thorough) random cases, 60 third-party cases. Third-party cases (appended): the repo's cenc/cbcs/cbcs-audio/PIFF files decrypted with the test key, a wrong key and the zero key by library (3 variants) and tool: per track and fragment sample count/size/duration/cto/decode time unchanged, and the sample bytes equal the reference cipher's decryption with that key. " +
-			"Non-trivial = the encryption produced at least one sample with a protected range (read from the encrypted bytes) and the decryption ran; distinct_nontrivial counts distinct (clear file, configuration, path) hashes; evaluations counts compared samples.",
+			"Case list: the 88 pinned cases of C07, 5400 (quick) / 250000 (thorough) random cases, 60 third-party cases, 3000 (quick) / 60000 (thorough) multi-track cases. Third-party cases (appended): the repo's cenc/cbcs/cbcs-audio/PIFF files decrypted with the test key, a wrong key and the zero key by library (3 variants) and tool: per track and fragment sample count/size/duration/cto/decode time unchanged, and the sample bytes equal the reference cipher's decryption with that key. " +
+			"Multi-track cases (appended after the third-party cases; 3000 quick / 60000 thorough): 2 (3/4) or 3 (1/4) independently generated single-track inputs (mostly video+audio in either order, 1/8 any codecs; own scheme, IV, KID and pssh choice per track, one shared key; 1/8: one of the tracks stays unencrypted) are encrypted one by one (library reader|slice reader, 1/6 mp4ff-encrypt) and MERGED on the byte level (gen/cencgen.Merge on the editable tree of the independent walker) into one file: one moov with the trak boxes in a PRNG order, track ids rewritten to a permutation of 1..n or to distinct values of {1,2,3,4,5,7,16,100,255,256,1000,65535,65536,2^31-1,2^31,2^32-2}, one mvex (before or after the traks) whose trex boxes are in an independently drawn order, all pssh boxes; fragments are single-traf fragments alternating between the tracks, fragments with one traf per track (traf order and the order of the tracks' sample data in mdat drawn independently; every traf keeps its own senc/saiz/saio, the saio offset is recomputed to the moof-relative position of that traf's first senc entry, every trun data_offset recomputed, tfhd default-base-is-moof), or a random mix; for 2/3 of the tracks tfhd default duration/size/flags that are equal in all fragments of the track are moved into its trex, so that reading the samples needs the right trex. The same merge of the clear re-encodes is the baseline input. The merged encrypted file is decrypted as one file (DecryptInit + DecryptSegment, reader|slice reader, segment|box-tree encode, combined or separate init; 1/5 mp4ff-decrypt, combined or -init) and judged per track exactly like a single-track case: every traf of every fragment = the generated samples of the track fragment the plan put there (bytes, size, duration, flags, cto, decode time), every trak's sample entry type restored without sinf, no pssh left in moov, all non-protection boxes of the merged clear baseline present, in order and byte-identical, output decodable. Before judging, the harness reads its own merged files with ref/cenc (clear merge carries the generated samples; encrypted merge: senc of every traf tiles with the IV size of its own track and saio points at it), a failure there is inconclusive (generator), never a violation. Keys multi/<scheme set>/<clause> and multi/<scheme|clear>/<avc|hevc|audio>/<clause>; evidence: multi_trak_vs_trex_order (ranks of the track ids in trak and trex order), multi_fragment, multi_fragment_shape, multi_track_ids, multi_traf_schemes_in_one_moof, multi_per_sample_iv_sizes_in_trak_order, multi_tfhd_default_moved_to_trex, counters multi_*. " +
+			"Non-trivial = the encryption produced at least one sample with a protected range (read from the encrypted bytes) and the decryption ran; distinct_nontrivial counts distinct (clear file, configuration, path) hashes (multi-track: merged encrypted file, key, path); evaluations counts compared samples.",
 		Assumptions: []string{
 			"a refusal to encrypt is accepted only where documented: ExtractInitProtectData/-init with avc3/hev1, more than one trun per traf, and samples whose auxiliary information cannot be described by the 8-bit saiz size",
 			"encryption side always encodes in segment mode (EncryptFragment does not maintain trun.data_offset; Fragment.Encode recomputes it); box-tree mode is exercised on the decryption side",
 			"third-party sample bytes: reference cipher per ISO/IEC 23001-7 with the tenc/senc values as written (PIFF: uuid tenc/senc, AES-CTR)",
+			"multi-track: the library refuses to encrypt a multi-track file (InitProtect: only one track), so the multi-track encrypted input is assembled by the harness from single-track encryptions; all tracks of one file share the key because DecryptSegment takes one key; a track left in the clear must come out unchanged",
 		},
 		Setup:      setup,
-		NumCases:   func(env *runner.Env) int { return len(cencgen.Plan(nRandom(env))) + len(tpPlan()) },
+		NumCases:   func(env *runner.Env) int { return len(cencgen.Plan(nRandom(env))) + len(tpPlan()) + nMulti(env) },
 		Run:        run,
 		CaseCPUSec: 120,
 		Finalize: func(a *runner.Agg) {
@@ -93,6 +95,12 @@ func init() {
 			}
 			if tool == 0 {
 				a.Note("the mp4ff-decrypt binary was never run (binaries missing?)")
+			}
+			if a.Counters["multi_round_trips"] == 0 {
+				a.Note("no multi-track file was decrypted")
+			}
+			if a.Counters["multi_trex_order_differs_from_trak_order"] == 0 || a.Counters["multi_fragments_with_several_trafs"] == 0 {
+				a.Note("multi-track cases: trex order never differed from trak order (%d) or no fragment had several trafs (%d)", a.Counters["multi_trex_order_differs_from_trak_order"], a.Counters["multi_fragments_with_several_trafs"])
 			}
 			if a.Counters["thirdparty_decryptions"] == 0 {
 				a.Note("no third-party encrypted file was decrypted")
@@ -155,9 +163,14 @@ type ctx struct {
 	pre    string
 	evals  int64
 	encOut *cencgen.EncOut
+	det    func() map[string]interface{} // multi-track cases: witness description instead of the single-track one
 }
 
 func (x *ctx) viol(clause, what string) {
+	if x.det != nil {
+		x.c.Violation(x.pre+"/"+clause, what, x.det())
+		return
+	}
 	det := map[string]interface{}{
 		"case": x.cs.Name, "codec": x.cs.Codec, "traits": x.cs.Traits, "encrypt_path": x.enc, "decrypt_path": x.dec,
 		"scheme": x.cfg.Scheme, "key": x.cfg.KeyHex(), "iv": x.cfg.IVHex(), "kid": x.cfg.KIDHex(), "pssh": x.cfg.Pssh,
@@ -194,6 +207,10 @@ func documentedRefusal(cs *cencgen.Case, cfg cencgen.Config, separate bool, err 
 }
 
 func run(c *runner.Ctx, idx int) {
+	if idx >= len(plan)+len(tps) {
+		runMulti(c, idx-len(plan)-len(tps))
+		return
+	}
 	if idx >= len(plan) {
 		runThirdParty(c, tps[idx-len(plan)])
 		return
